@@ -31,6 +31,10 @@ type taintCtx struct {
 	tainted map[types.Object]string // variable -> why
 	params  map[types.Object]bool   // tainted parameters (from call sites)
 	bound   map[types.Object]string // variable known to be < some expression by construction (range index → bound expr)
+	// anyType: propagate taint to variables of every type (structs decoded from the file), not
+	// only integers and arrays; extraSource: further source expressions (fields filled from a header)
+	anyType     bool
+	extraSource func(info *types.Info, e ast.Expr) (string, bool)
 }
 
 func isIntType(t types.Type) bool {
@@ -49,6 +53,11 @@ func isSigned(t types.Type) bool {
 // sourceExpr: is e itself a taint source (value read from the file)?
 func (tc *taintCtx) sourceExpr(e ast.Expr) (string, bool) {
 	info := tc.info
+	if tc.extraSource != nil {
+		if w, ok := tc.extraSource(info, e); ok {
+			return w, true
+		}
+	}
 	switch x := ast.Unparen(e).(type) {
 	case *ast.CallExpr:
 		name := core.CalleeName(info, x)
@@ -147,7 +156,11 @@ func (tc *taintCtx) taintOf(e ast.Expr) (bool, string) {
 }
 
 func newTaintCtx(c *Ctx, f *core.Func, paramTaint map[types.Object]string) *taintCtx {
-	tc := &taintCtx{c: c, f: f, g: c.G(f), info: f.Info(), tainted: map[types.Object]string{}, bound: map[types.Object]string{}}
+	return newTaintCtxOpts(c, f, paramTaint, false, nil)
+}
+
+func newTaintCtxOpts(c *Ctx, f *core.Func, paramTaint map[types.Object]string, anyType bool, extra func(info *types.Info, e ast.Expr) (string, bool)) *taintCtx {
+	tc := &taintCtx{c: c, f: f, g: c.G(f), info: f.Info(), tainted: map[types.Object]string{}, bound: map[types.Object]string{}, anyType: anyType, extraSource: extra}
 	for o, w := range paramTaint {
 		tc.tainted[o] = w
 	}
@@ -201,7 +214,7 @@ func newTaintCtx(c *Ctx, f *core.Func, paramTaint map[types.Object]string) *tain
 							} else if o := tc.info.Uses[id]; o != nil {
 								lt = o.Type()
 							}
-							if lt != nil && (isIntType(lt) || strings.Contains(lt.String(), "array") || strings.Contains(lt.String(), "[]uint")) && !(len(x.Lhs) > 1 && i == len(x.Lhs)-1 && lt.String() == "error") {
+							if lt != nil && (tc.anyType || isIntType(lt) || strings.Contains(lt.String(), "array") || strings.Contains(lt.String(), "[]uint")) && !(len(x.Lhs) > 1 && i == len(x.Lhs)-1 && lt.String() == "error") {
 								mark(id, why)
 							}
 						}
@@ -269,6 +282,17 @@ func (tc *taintCtx) boundsAt(e ast.Expr, loc core.Loc) bounds {
 	info := tc.info
 	var b bounds
 	base := stripConv(info, e)
+	// X / c with a positive constant c keeps the bounds of X
+	for {
+		q, isQ := ast.Unparen(base).(*ast.BinaryExpr)
+		if !isQ || q.Op != token.QUO {
+			break
+		}
+		if v, isC := core.ConstInt(info, q.Y); !isC || v <= 0 {
+			break
+		}
+		base = stripConv(info, q.X)
+	}
 	bs := core.ExprString(base)
 	// unsigned values have a lower bound; a conversion of an unsigned value to a signed type does not
 	if t := info.Types[e].Type; t != nil && isIntType(t) && !isSigned(t) {
@@ -314,8 +338,18 @@ func (tc *taintCtx) boundsAt(e ast.Expr, loc core.Loc) bounds {
 				continue
 			}
 			if t, _ := tc.taintOf(other); t && !isConstExpr(info, other) {
-				// compared with another file-derived value: no bound
-				continue
+				// compared with another file-derived value: no bound — except U - T with U not
+				// file-derived and T known non-negative here (U - T <= U)
+				sub, isSub := ast.Unparen(other).(*ast.BinaryExpr)
+				okSub := false
+				if isSub && sub.Op == token.SUB && core.ExprString(stripConv(info, sub.Y)) != bs {
+					if tu, _ := tc.taintOf(sub.X); !tu && tc.boundsAt(sub.Y, loc).lower {
+						okSub = true
+					}
+				}
+				if !okSub {
+					continue
+				}
 			}
 			cv, isC := core.ConstInt(info, other)
 			switch op {
@@ -614,7 +648,7 @@ func (tc *taintCtx) sinks() []sinkReport {
 					for _, a := range g.AtomsAt(loc) {
 						if be, isB := ast.Unparen(a.Expr).(*ast.BinaryExpr); isB {
 							if call, isCall := ast.Unparen(be.X).(*ast.CallExpr); isCall && core.CalleeName(info, call) == "builtin.len" && core.ExprString(call.Args[0]) == core.ExprString(x.X) {
-								if v, isV := core.ConstInt(info, be.Y); isV && ((be.Op == token.GTR && a.Val && v >= cv) || (be.Op == token.GEQ && a.Val && v > cv) || (be.Op == token.EQL && a.Val && v > cv)) {
+								if v, isV := core.ConstInt(info, be.Y); isV && ((be.Op == token.GTR && a.Val && v >= cv) || (be.Op == token.GEQ && a.Val && v > cv) || (be.Op == token.EQL && a.Val && v > cv) || (be.Op == token.NEQ && !a.Val && v > cv)) {
 									okG = true
 								}
 							}
